@@ -31,6 +31,43 @@ mod verif_probe_gallery_c13 {
                 }
             }
         }
+        // ---- optimize(): the feature of a continuing detection is taken only if the DETECTION meets the collect thresholds
+        use crate::trackers::sort::SortAttributesOptions;
+        use crate::trackers::spatio_temporal_constraints::SpatioTemporalConstraints;
+        use crate::trackers::visual_sort::track_attributes::VisualAttributes;
+        use crate::track::ObservationMetric;
+        for max in 2usize..=3 {
+          for min_area in [5.0f32, 50.0, 150.0] {
+            for (w, h) in [(10.0f32, 20.0f32), (1.0, 4.0), (3.0, 4.0), (30.0, 40.0)] {
+                for q in [0.3f32, 0.8] {
+                    for share in [None, Some(0.2f32), Some(0.9)] {
+                        for is_merge in [false, true] {
+                            let mut m = VisualMetricBuilder::default().visual_max_observations(max).visual_minimal_track_length(1).visual_min_votes(1)
+                                .visual_minimal_area(min_area).visual_minimal_quality_collect(0.5).visual_minimal_quality_use(0.1)
+                                .visual_minimal_own_area_percentage_collect(0.5).visual_minimal_own_area_percentage_use(0.1).build();
+                            let mut attrs = VisualAttributes::new(Arc::new(SortAttributesOptions::new(None, 5, 3, SpatioTemporalConstraints::default(), 0.05, 0.00625)));
+                            // the track so far: one big, good observation (so the smoothed box stays big)
+                            let mut obs = vec![Observation::new(Some(VisualObservationAttributes::new(0.9, BoundingBox::new(0.0, 0.0, 10.0, 20.0).as_xyaah())), Some(Feature::from_vec(vec![1.0])))];
+                            m.optimize(0, &[], &mut attrs, &mut obs, 0, false).unwrap();
+                            let det = BoundingBox::new(0.0, 0.0, w, h).as_xyaah();
+                            let oa = match share { Some(s) => VisualObservationAttributes::with_own_area_percentage(q, det, s), None => VisualObservationAttributes::new(q, det) };
+                            obs.push(Observation::new(Some(oa), Some(Feature::from_vec(vec![2.0]))));
+                            let before_featured = obs[..obs.len() - 1].iter().filter(|o| o.feature().is_some()).count();
+                            m.optimize(0, &[], &mut attrs, &mut obs, 1, is_merge).unwrap();
+                            let meets = w * h >= min_area && q >= 0.5 && share.map(|s| s >= 0.5).unwrap_or(true);
+                            let ctx = format!("PROBE input: optimize max={} minimal_area={} detection={}x{} quality={} share={:?} is_merge={}", max, min_area, w, h, q, share, is_merge);
+                            let want_feature = !is_merge || meets;
+                            if obs[0].feature().is_some() != want_feature { failures.push(format!("{}: newest feature kept={} but the detection {} the collect thresholds", ctx, obs[0].feature().is_some(), if meets { "meets" } else { "does not meet" })); }
+                            let stored = obs.iter().filter(|o| o.feature().is_some()).count();
+                            if attrs.visual_features_collected_count != stored { failures.push(format!("{}: collected count {} but {} features stored", ctx, attrs.visual_features_collected_count, stored)); }
+                            let want_len = (if before_featured >= max { before_featured - 1 } else { before_featured }) + 1;
+                            if obs.len() != want_len || obs.len() > max { failures.push(format!("{}: gallery holds {} entries, expected {} (max {})", ctx, obs.len(), want_len, max)); }
+                        }
+                    }
+                }
+            }
+          }
+        }
         for f in failures.iter().take(40) { eprintln!("{}", f); }
         assert!(failures.is_empty(), "PROBE found {} failing inputs; first: {}", failures.len(), failures[0]);
     }
